@@ -18,6 +18,21 @@ def _spaces(tier):
             ('D6<=4 blank', spaces.D['D6'], 4, ' ')]
 
 
+def attach_cases():
+    """full product: kind x inner content ending in a middle token x comment attached after the closer x what follows
+    (later passes must never pull a group's own delimiter into another node, also once comments are attached)"""
+    import itertools
+    kinds = [('(', ')'), ('[', ']'), ('case', 'end'), ('if', 'end if'), ('for', 'end loop'), ('begin', 'end')]
+    inner = ['x', 'x ,', 'x as', 'x ::', 'x :=', 'x =', 'x .', 'x , y ,', '1 ,', 'x where y', '', 'x , 1 +', 'x and']
+    trail = ['', '--c\n', ' /*c*/', '/*c*/', ' --c\n', '\n--c\n', ' /*c*/ /*d*/']
+    follow = ['', 'x', ', x', '; x', ' x', ' as y', ' = 1']
+    prefix = ['', 'select ', '( ', 'a ']
+    out = []
+    for (o, c), i, t, f, p in itertools.product(kinds, inner, trail, follow, prefix):
+        out.append((p, o, ' ' + i + ' ' if i else ' ', c, t, f))
+    return out
+
+
 def _setup():
     import sqlparse
     return sqlparse
@@ -44,7 +59,7 @@ def _evaluate(text, frags, space, acc, sqlparse):
 
 def run(tier, seed):
     merged, sizes = e1.run(_spaces(tier), _evaluate, seed, bits=26 if tier == 'thorough' else 23,
-                           setup=_setup)
+                           setup=_setup, extra_cases=[('ATTACH product', attach_cases(), '')])
     cov = {
         'evaluations': merged['n'], 'distinct_nontrivial': merged['distinct'],
         'rule': 'every sequence of 1..n fragments over the bracket/block drivers (D1core, BR, D1, D6) '
